@@ -13,9 +13,14 @@ Streams
            re-assigned stress) for stress in {1, 1/2, 2, 0.8, 3/4, 5/4} in several argument forms x reference
            models of different sizes, vs Lean runF (getReference / getTrial / deltaObj); delta_zero / _sign /
            _monotone judged against the value get_reference RETURNS; reference_size attribute == that value
+  szhist   the size of a TRIAL on a USED ForgivingFactorBits object: get_reference, then get_trial on filter-tuned
+           trials of the real hyper-model (partial limits: unquantized layers downstream of a scaled layer), on
+           same-named hand-built models, partially quantized copies, the reference itself; rows / totals judged
+           against elements x bits of the trial's own tensors and against a fresh twin; vs Lean runM
   size     real compute_model_size vs Lean computeModelSize
 Clause oracle (on the REAL outputs only): within_limit / from_config / excluded_unquantized /
-group_shared / architecture / adjust_documented / delta_zero / delta_sign / delta_monotone / reference_tie.
+group_shared / architecture / adjust_documented / delta_zero / delta_sign / delta_monotone / reference_tie /
+size_bits / size_history.
 `layer_indexes` is generated in every legal form (None, empty list / tuple / range / array / set, [0], singletons,
 tuples, ranges, numpy arrays and integers, duplicates, re-assigned on a used hyper-model, through AutoQKeras).
 The limits the oracle judges with are derived from the USER's dictionary by `doc_limit` (the documented
@@ -1648,6 +1653,9 @@ def stream_size_history(run, ai, fb, models, rng, tier):
   def rjn(x):
     return None if x is None else core.rj(float(x) if isinstance(x, np.ndarray) else x)
 
+  def oint(x):
+    return None if x is None else int(x)
+
   twin_cache = {}
 
   def twin(m, scn, sc):
@@ -1677,10 +1685,11 @@ def stream_size_history(run, ai, fb, models, rng, tier):
             st = {"ret": rjn(ret), "reference_size": rjn(getattr(t, "reference_size", None)),
                   "trial_size": rjn(getattr(t, "trial_size", None)), "reference_stats": None, "trial_stats": None}
             if hasattr(t, "reference_size_dict"):
-              st["reference_stats"] = {"p": int(t.ref_p), "a": int(t.ref_a), "rows": rows_of(t.reference_size_dict)}
+              st["reference_stats"] = {"p": oint(getattr(t, "ref_p", None)), "a": oint(getattr(t, "ref_a", None)),
+                                       "rows": rows_of(t.reference_size_dict)}
             if hasattr(t, "trial_size_dict"):
-              st["trial_stats"] = {"p": int(t.total_p_bits), "a": int(t.total_a_bits),
-                                   "rows": rows_of(t.trial_size_dict)}
+              st["trial_stats"] = {"p": oint(getattr(t, "total_p_bits", None)),
+                                   "a": oint(getattr(t, "total_a_bits", None)), "rows": rows_of(t.trial_size_dict)}
             steps.append(st)
 
           order = [int(j) for j in rng.permutation(len(trials[rk]))]
@@ -1761,7 +1770,8 @@ def stream_size_history(run, ai, fb, models, rng, tier):
                                   returned_trial=int(trv), delta=float(d))))
           # after the trials the reference statistics are still the reference's
           rt = twin(ref, scn, sc)
-          if rows_of(t.get_reference_stats()) != rt[3] or (int(t.ref_p), int(t.ref_a)) != (rt[1], rt[2]) or \
+          if rows_of(t.get_reference_stats()) != rt[3] or \
+              (oint(getattr(t, "ref_p", None)), oint(getattr(t, "ref_a", None))) != (rt[1], rt[2]) or \
               core.frac(t.reference_size) != R or R != fractions.Fraction(rt[0]) * core.frac(stress):
             pend.append((len(lines), len(steps) - 1, "size_history", {"site": "reference_stats_after_trials"},
                          dict(base, get_reference_stats=rows_of(t.get_reference_stats()), reference_rows=rt[3],
@@ -1828,7 +1838,10 @@ def run(run: core.Run, tier: str):
       "with a shared group cache; delta on (delta_p, delta_n, rate, stress, integer sizes incl. ref, ref±1..3); "
       "forgiving-factor HISTORIES through get_reference/get_trial/delta on one object for 10 stress forms x 3 "
       "reference models x trial models whose size equals / undercuts / exceeds the STRESSED reference; "
-      "compute_model_size on reference, model_quantize'd and hand-built mixed models x 4 size configurations")
+      "compute_model_size on reference, model_quantize'd and hand-built mixed models x 4 size configurations; "
+      "size HISTORIES (szhist): get_reference then get_trial on filter-tuned trials (every filter factor, partial "
+      "limits), same-named rebuilt models, partially quantized copies, on one object per reference x size "
+      "configuration x route, a trial before the reference on every other object")
   import time
   walls = {}
   t0 = time.time()
